@@ -1,5 +1,5 @@
 """Module to handle the functionality of conditional effects."""
-from typing import Union, Set
+from typing import Dict, Union, Set
 
 from .pddl_precondition import CompoundPrecondition
 from .pddl_type import PDDLType
@@ -32,6 +32,20 @@ class ConditionalEffect:
             f"(and {discrete_effect}{numeric_effect}))"
         )
 
+    def change_signature(self, old_to_new_param_names: Dict[str, str]) -> None:
+        """Changes the parameter names in the antecedents and in the effects.
+
+        :param old_to_new_param_names: the mapping of old parameter names to new parameter names.
+        """
+        self.antecedents.change_signature(old_to_new_param_names)
+        for effect in self.discrete_effects:
+            effect.change_signature(old_to_new_param_names)
+
+        # the effects are hashed by their text, which has just changed.
+        self.discrete_effects = set(self.discrete_effects)
+        for effect in self.numeric_effects:
+            effect.change_signature(old_to_new_param_names)
+
 
 class UniversalEffect:
     """Class representing a universal quantifier in a PDDL+ action."""
@@ -56,3 +70,16 @@ class UniversalEffect:
                 f"\n\t\t{str(conditional_effect)})\n\t"
             )
         return combined_universal_effect
+
+    def change_signature(self, old_to_new_param_names: Dict[str, str]) -> None:
+        """Changes the parameter names in the quantified effects; the quantified parameter is bound here and is kept.
+
+        :param old_to_new_param_names: the mapping of old parameter names to new parameter names.
+        """
+        free_names_mapping = {
+            old_name: new_name
+            for old_name, new_name in old_to_new_param_names.items()
+            if old_name != self.quantified_parameter
+        }
+        for conditional_effect in self.conditional_effects:
+            conditional_effect.change_signature(free_names_mapping)
